@@ -12,7 +12,7 @@ structure XEntry where
   content : Bytes    -- file bytes, or link target / hard-link source
   deriving DecidableEq, Repr, Inhabited
 
-inductive XErr | alreadyExists | fs (e : FsErr)
+inductive XErr | alreadyExists | outside | invalidInput | fs (e : FsErr)
   deriving DecidableEq, Repr
 
 def liftFs : Except FsErr Fs → Except XErr Fs
@@ -37,8 +37,73 @@ def step (r : Fs × Option XErr) (f : Fs → Except FsErr Fs) : Fs × Option XEr
     | .ok fs' => (fs', none)
     | .error e => (fs, some (.fs e))
 
+/-- `p.symlink_metadata().is_ok_and(|m| m.file_type().is_symlink())` -/
+def isLinkAt (fs : Fs) (cwd : Path) (s : Bytes) : Bool :=
+  match resolve fs false (fuelFor fs) (if isAbs s then [] else cwd) (comps s) with
+  | some p => match fs.lookup p with
+    | some (.link _) => true
+    | _ => false
+  | none => false
+
+/-- the loop of `ensure_confined`: `walked` are the components below `base` so far -/
+def confinedGo (fs : Fs) (cwd : Path) (base : Bytes) : List Bytes → List Bytes → Bool
+  | _, [] => true
+  | walked, c :: rest =>
+    if c = [dot, dot] then
+      if walked = [] then false else confinedGo fs cwd base walked.dropLast rest
+    else
+      let w := walked ++ [c]
+      if isLinkAt fs cwd (joinP base (joinSlash w)) then false else confinedGo fs cwd base w rest
+
+/-- `ensure_confined(base, rel)` (the `fix:` for C09): `rel` is relative, does not climb above
+    `base`, and no component on the way is a symbolic link -/
+def confined (fs : Fs) (cwd : Path) (base rel : Bytes) : Bool :=
+  if isAbs rel then false else confinedGo fs cwd base [] (comps rel)
+
+/-- `Path::file_name().is_none()`: empty, or ending in `..` -/
+def noFileName (s : Bytes) : Bool :=
+  match (comps s).getLast? with
+  | none => true
+  | some c => c == [dot, dot]
+
 /-- `extract_entry`; effects performed before a failure stay performed. -/
 def extractEntry (overwrite : Bool) (cwd : Path) (outDir : Bytes) (fs : Fs) (e : XEntry) : Fs × Option XErr :=
+  let path := joinP outDir e.name
+  let parentRel := (parentP e.name).getD []
+  if !confined fs cwd outDir parentRel then (fs, some .outside)
+  else
+    let isLink := isLinkAt fs cwd path
+    if (fs.existsP cwd path || isLink) && !overwrite then (fs, some .alreadyExists)
+    else
+      let parent := parentP path
+      let r : Fs × Option XErr := (fs, none)
+      let r := match parent with
+        | some p => step r (fun fs => fs.createDirAll cwd p)
+        | none => r
+      match e.kind with
+      | 0 =>
+        let r := step r (fun fs => if isLink then fs.remove cwd path else .ok fs)
+        step r (fun fs => fs.createFile cwd path e.content)
+      | 1 =>
+        let r := step r (fun fs => if isLink then fs.remove cwd path else .ok fs)
+        step r (fun fs => fs.createDirAll cwd path)
+      | 2 =>
+        let r := step r (fun fs => if overwrite && (fs.existsP cwd path || isLink) then fs.remove cwd path else .ok fs)
+        step r (fun fs => fs.symlink cwd e.content path)
+      | _ =>
+        match r with
+        | (fs1, some x) => (fs1, some x)
+        | (fs1, none) =>
+          let source := joinP parentRel e.content
+          if !confined fs1 cwd outDir ((parentP source).getD []) then (fs1, some .outside)
+          else if noFileName source then (fs1, some .invalidInput)
+          else
+            let original := joinP outDir source
+            let r := step (fs1, none) (fun fs => if overwrite && (fs.existsP cwd path || isLink) then fs.remove cwd path else .ok fs)
+            step r (fun fs => fs.hardLink cwd original path)
+
+/-- `extract_entry` before the fix (kept to show that the statement of C09 discriminates) -/
+def extractEntryLegacy (overwrite : Bool) (cwd : Path) (outDir : Bytes) (fs : Fs) (e : XEntry) : Fs × Option XErr :=
   let path := joinP outDir e.name
   if fs.existsP cwd path && !overwrite then (fs, some .alreadyExists)
   else
@@ -62,21 +127,27 @@ def extractEntry (overwrite : Bool) (cwd : Path) (outDir : Bytes) (fs : Fs) (e :
     failing entry does not stop the following ones: results are only inspected after the scan);
     if any of them failed the first error is returned and hard links are not processed;
     otherwise hard links are created in order, stopping at the first failure. -/
-def extractAll (overwrite : Bool) (cwd : Path) (outDir : Bytes) (fs : Fs) (es : List XEntry) : Fs × Option XErr :=
+def extractAllWith (one : Fs → XEntry → Fs × Option XErr) (fs : Fs) (es : List XEntry) : Fs × Option XErr :=
   let rec scan (fs : Fs) (err : Option XErr) : List XEntry → Fs × Option XErr
     | [] => (fs, err)
     | e :: rest =>
-      match extractEntry overwrite cwd outDir fs e with
+      match one fs e with
       | (fs', none) => scan fs' err rest
       | (fs', some x) => scan fs' (err.orElse fun _ => some x) rest
   let rec links (fs : Fs) : List XEntry → Fs × Option XErr
     | [] => (fs, none)
     | e :: rest =>
-      match extractEntry overwrite cwd outDir fs e with
+      match one fs e with
       | (fs', none) => links fs' rest
       | (fs', some x) => (fs', some x)
   match scan fs none (es.filter (·.kind ≠ 3)) with
   | (fs', some x) => (fs', some x)
   | (fs', none) => links fs' (es.filter (·.kind = 3))
+
+def extractAll (overwrite : Bool) (cwd : Path) (outDir : Bytes) (fs : Fs) (es : List XEntry) : Fs × Option XErr :=
+  extractAllWith (extractEntry overwrite cwd outDir) fs es
+
+def extractAllLegacy (overwrite : Bool) (cwd : Path) (outDir : Bytes) (fs : Fs) (es : List XEntry) : Fs × Option XErr :=
+  extractAllWith (extractEntryLegacy overwrite cwd outDir) fs es
 
 end Pna.Cli
